@@ -215,7 +215,7 @@ def suite_gauc(rng, tier, shard, nshards):
             e = _rand_matrix(rng, n + 1, sym, maxval)  # shape mismatch -> ValueError
         w = rng.choice([None, 1, 2, 3, n, n + 3])
         tr = rng.random() < 0.5
-        spec = (k % 2 == 1) and n != 1 and w != 1 and len(e) == n
+        spec = (k % 2 == 1) and len(e) == n
         # odd cases tie the Layer-S definition (Lean `gaucSpec`) to the real `_gauc` directly
         yield Case("hierarchy.gauc_spec" if spec else "hierarchy._gauc", [r, e, tr, w],
                    lambda r=r, e=e, tr=tr, w=w: H._gauc(_csr(r), _csr(e), tr, w),
@@ -387,7 +387,13 @@ def suite_evaluate(rng, tier, shard, nshards):
             ext = Fr(rng.randint(1, 64), 32)
             est = [lv[:-1] + [[lv[-1][0], lv[-1][1] + ext]] for lv in est]
             tag = "est-long"
-        elif r < 0.6:     # reference / estimate do not start at 0: padded with __T_MIN
+        elif r < 0.62:    # an extra estimate segment that only touches the crop range (starts exactly at the
+            # reference end, or further out): dropped by util.adjust_intervals, never kept with zero length
+            gap = rng.choice([Fr(0), Fr(0), Fr(rng.randint(1, 32), 32)])
+            ext = Fr(rng.randint(1, 64), 32)
+            est = [lv[:-1] + [[lv[-1][0], lv[-1][1] + gap]] + [[lv[-1][1] + gap, lv[-1][1] + gap + ext]] for lv in est]
+            tag = "est-touch"
+        elif r < 0.72:    # reference / estimate do not start at 0: padded with __T_MIN
             off = Fr(rng.randint(1, 16), 32)
             est = [[[a + off, b + off] for a, b in lv] for lv in est]
             tag = "est-offset"
